@@ -34,6 +34,7 @@ func init() {
 			{Name: "sub-sched-unsub-recv", Mode: "sched", Bound: b, Reset: kit.ResetGlobals, Body: schedUnsub},
 			{Name: "sub-queue-length-across-subscription-changes", Mode: "enum", Reset: kit.ResetGlobals, Body: c19.SubQLen, NeedCounters: []string{"context-length-differs-from-the-socket's"}},
 			{Name: "xsub-all", Mode: "enum", Reset: kit.ResetGlobals, Body: xsubAll},
+			{Name: "sub-one-publication-several-contexts-message-api", Mode: "enum", Reset: kit.ResetGlobals, Body: SharedPublication, NeedCounters: []string{"three-or-more-receivers-each-exact"}},
 		}
 		for _, k := range []struct {
 			n string
@@ -47,6 +48,116 @@ func init() {
 		}
 		return out
 	})
+}
+
+// SharedPublication: a SUB socket and two or three of its contexts all subscribe to what a publisher
+// sends (two publications of different sizes).  Every receiver takes its copy through the message
+// API (RecvMsg), overwrites header and body in place - the message is its own - and releases it,
+// one receiver after the other, in either order: each gets exactly the bytes published.
+func SharedPublication() {
+	nctx := 2 + kit.ChooseFree(2)
+	sizes := [][2]int{{1, 9}, {40, 200}, {1000, 12}, {5000, 70000}}[kit.ChooseFree(4)]
+	backwards := kit.ChooseFree(2) == 1
+	s, err := sub.NewSocket()
+	if err != nil {
+		kit.Failf("setup", "NewSocket: %v", err)
+	}
+	ep := vt.Get("shared")
+	if err := s.Listen("vt://shared"); err != nil {
+		kit.Failf("setup", "Listen: %s", kit.ErrName(err))
+	}
+	p := ep.Connect()
+	kit.Quiesce()
+	rs := []kit.MsgReceiver{s}
+	names := []string{"sock"}
+	_ = s.SetOption(mangos.OptionSubscribe, "")
+	for i := 0; i < nctx; i++ {
+		c, err := s.OpenContext()
+		if err != nil {
+			kit.Failf("setup", "OpenContext: %s", kit.ErrName(err))
+		}
+		_ = c.SetOption(mangos.OptionSubscribe, []string{"", "p", "pu"}[i%3])
+		rs = append(rs, c)
+		names = append(names, fmt.Sprintf("ctx%d", i))
+	}
+	var pubs []string
+	for n, sz := range sizes {
+		b := make([]byte, sz)
+		for i := range b {
+			b[i] = byte('a' + (i*7+n)%23)
+		}
+		copy(b, "pub")
+		if sz < 3 {
+			b[0] = 'p'
+			if sz > 1 {
+				b[1] = 'u'
+			}
+		}
+		if sz == 1 {
+			// only the receivers subscribed to "" or "p" match a one byte body
+		}
+		pubs = append(pubs, string(b))
+		p.Deliver(b)
+	}
+	kit.Quiesce()
+	matches := func(ri int, body string) bool {
+		if ri == 0 {
+			return true
+		}
+		t := []string{"", "p", "pu"}[(ri-1)%3]
+		return len(body) >= len(t) && body[:len(t)] == t
+	}
+	order := make([]int, len(rs))
+	for i := range order {
+		order[i] = i
+		if backwards {
+			order[i] = len(rs) - 1 - i
+		}
+	}
+	for _, want := range pubs {
+		for _, ri := range order {
+			if !matches(ri, want) {
+				continue
+			}
+			r := rs[ri]
+			var got string
+			c := kit.Start("RecvMsg:"+names[ri], func() (interface{}, error) {
+				m, err := r.RecvMsg()
+				if err != nil {
+					return nil, err
+				}
+				got = string(m.Body)
+				for i := range m.Body {
+					m.Body[i] ^= 0xa5
+				}
+				for i := range m.Header {
+					m.Header[i] ^= 0xa5
+				}
+				m.Body = append(m.Body, "scribble"...)
+				m.Free()
+				return nil, nil
+			})
+			kit.Quiesce()
+			if !c.Done() || c.Err != nil {
+				kit.Failf("shared-publication-recv", "%s: a matching publication of %d bytes is queued: RecvMsg done=%v %s", names[ri], len(want), c.Done(), kit.ErrName(c.Err))
+			}
+			if got != want {
+				kit.Failf("shared-publication-differs", "%s (one of %d receivers of the same publication, each overwriting its own message after RecvMsg) received %d bytes %q, the publisher sent %d bytes %q", names[ri], len(rs), len(got), clip(got), len(want), clip(want))
+			}
+		}
+	}
+	if len(rs) >= 3 {
+		kit.Count("three-or-more-receivers-each-exact")
+	}
+	kit.Observe("n=%d sizes=%v back=%v", nctx, sizes, backwards)
+	kit.Must("Close", func() { _ = s.Close() })
+}
+
+func clip(s string) string {
+	if len(s) > 24 {
+		return s[:24] + "..."
+	}
+	return s
 }
 
 var topics = []string{"", "a", "ab", "b", "\xff"}
